@@ -308,3 +308,23 @@ package fun
 //@   ensures skip: old(atomicval(counter)) >= in ==> calls(op) == old(calls(op)) && atomicval(counter) == old(atomicval(counter))
 //@   ensures result == output
 //@   modifies cell(output)
+
+//@ func (Producer).Retry$1
+//@   props C15
+//@   option noframe
+//@   requires pf != nil
+//@   ensures atmost: calls(pf) <= old(calls(pf)) + (n > 0 ? n : 0)
+//@   ensures attempted: result1 != nil ==> calls(pf) > old(calls(pf))
+//@   loop 1 invariant 0 <= i && (n > 0 ==> i <= n) && calls(pf) == old(calls(pf)) + i && (err != nil ==> i > 0)
+
+// Operation.Limit(n): the admission test moves the counter from k < n to k+1
+// exactly when it answers true, and never past n: at most n executions.
+//@ func (Operation).Limit$1
+//@   props C15
+//@   option old section
+//@   option atomic-rely aold <= anew && anew <= in
+//@   requires counter != nil && in > 0 && 0 <= atomicval(counter) && atomicval(counter) <= in
+//@   ensures granted: result ==> old(atomicval(counter)) < in && atomicval(counter) == old(atomicval(counter)) + 1
+//@   ensures refused: !result ==> old(atomicval(counter)) >= in && atomicval(counter) == old(atomicval(counter))
+//@   ensures atomicval(counter) <= in
+//@   loop 1 invariant 0 <= atomicval(counter) && atomicval(counter) <= in
